@@ -105,17 +105,26 @@ def stJ (st : St V) : Json :=
 
 def handle (j : Json) : Json :=
   let W := mkWorld j
-  let cj := fld j "cls"
-  let c : ClassDecl V := { fields := (arr! (fld cj "fields")).map mkFieldDecl, opts := mkOpts (fld cj "opts")
-                           additionTyped := bool! (fld cj "addition_typed") }
+  let mkClass (cj : Json) : ClassDecl V :=
+    { fields := (arr! (fld cj "fields")).map mkFieldDecl
+      opts := mkOpts (fld cj "opts")
+      ownOpts := !(isNull (fld cj "opts"))
+      additionTyped := bool! (fld cj "addition_typed")
+      bases := nats (fld cj "bases")
+      drops := nats (fld cj "drops") }
+  let decls : List (ClassDecl V) := match obj? j "classes" with
+    | some cs => (arr! cs).map mkClass
+    | none => [mkClass (fld j "cls")]
+  let target := nat! (fld j "target")
+  let B : Built V := ((buildAll W decls)[target]?).getD (mkParserIn W [] { fields := [], opts := {} })
   let runtime := match fld j "runtime" with | .null => none | r => some (mkOpts r)
   let data := (arr! (fld j "data")).map fun p => match arr! p with
     | [k, v] => (nat! k, str! v) | _ => (0, "")
   let lj := fld j "legacy"
   let L : Legacy := { modeStringReturns := bool! (fld lj "mode_string_returns")
                       predSkipsMode := bool! (fld lj "pred_skips_mode") }
-  let P := mkParser W c
-  let o := (runtime.getD c.opts).normalise
+  let P := B.parser
+  let o := (runtime.getD B.opts).normalise
   let run (st : St V) := outcomeJ P o (finish L W P o { st with errs := paramsCheck o data.length ++ st.errs })
   let legacyStrategies := bool! (fld lj "strategies")
   let df := if legacyStrategies then dataFirstLegacy W P o data else dataFirst L W P o data
@@ -124,6 +133,7 @@ def handle (j : Json) : Json :=
   let sp := Spec.contract W P o data
   Json.mkObj [
     ("wf", Json.bool (P.wf W)),
+    ("wf_all", Json.arr ((buildAll W decls).map fun b => Json.bool (b.parser.wf W)).toArray),
     ("data_first", Json.bool (useDataFirst P o)),
     ("model", run declared),
     ("df", run df), ("ff", run ff),
